@@ -58,6 +58,17 @@ func NewTopicModel(pre Predef) *TopicModel { return &TopicModel{newTopicModel(pr
 func (t *TopicModel) Feed(it Item)         { t.m.feed(it) }
 func (t *TopicModel) ClientID() string     { return t.m.clientID }
 
+// Risky reports whether the reference expects the gateway to refuse the packet or to end the
+// session because of it (used by generators that must not pipeline anything after such a packet).
+func (t *TopicModel) Risky(p *snref.Pkt) bool {
+	if p.Type == snref.PUBLISH {
+		if _, st := t.m.resolve(p.TIT, p.TopicID); st != "name" {
+			return true
+		}
+	}
+	return t.m.killer(p) || t.m.rejectable(p)
+}
+
 // Rejected returns the ids of gateway REGISTERs the client refused.
 func (t *TopicModel) Rejected() map[uint16]string { return t.m.rejected }
 
@@ -76,6 +87,14 @@ func (m *topicModel) resolve(tit uint8, tid uint16) (string, string) {
 		}
 		if m.maybe[tid] {
 			return "", "dontcare"
+		}
+		// While a SUBSCRIBE by name is outstanding the gateway has already allocated (and may already
+		// honour) a topic ID for it which the wire does not show before the SUBACK: an ID unknown so
+		// far may be that one.
+		for _, sp := range m.pendSub {
+			if sp.TIT == 0 && sp.HasName && !hasWild(sp.Name) {
+				return "", "dontcare"
+			}
 		}
 		return "", "nothing"
 	case 1:
@@ -255,6 +274,9 @@ func C01(items []Item, pre Predef) (vs []V, checked int) {
 		}
 		if p.Type == snref.PUBLISH {
 			name, st := m.resolve(p.TIT, p.TopicID)
+			if st == "dontcare" && gwTerminatedAfter(items, idx) {
+				dead = true // the gateway did not know the ID after all
+			}
 			switch {
 			case p.TIT == 3:
 				exps = append(exps, exp{it, "", "no"})
@@ -291,14 +313,22 @@ func C01(items []Item, pre Predef) (vs []V, checked int) {
 			continue
 		}
 		checked++
+		// Forwards keep the order of the client's packets (one receive loop), so the next unconsumed
+		// forward belongs to the earliest client PUBLISH that was forwarded. With unique (non-empty)
+		// payload tags the match is by payload, wherever the forward appears after the client packet
+		// (pipelined traffic); with an empty payload the forward must precede the next client packet.
+		upper := nextSNInAfter(items, e.it.Seq)
+		if len(p.Data) > 0 {
+			upper = 1 << 60
+		}
 		if e.forward == "no" {
-			if oi < len(outs) && outs[oi].Seq > e.it.Seq && bytes.Equal(outs[oi].MQ.Payload, p.Data) && (oi+1 >= len(outs) || true) && nextSNInAfter(items, e.it.Seq) > outs[oi].Seq {
+			if oi < len(outs) && outs[oi].Seq > e.it.Seq && bytes.Equal(outs[oi].MQ.Payload, p.Data) && upper > outs[oi].Seq {
 				vs = append(vs, V{"C01", "forwarded-undefined-topic|" + cls, fmt.Sprintf("%s whose topic ID denotes nothing was forwarded as %s", p, outs[oi].MQ), outs[oi].Seq})
 				oi++
 			}
 			continue
 		}
-		if oi >= len(outs) || outs[oi].Seq < e.it.Seq || outs[oi].Seq > nextSNInAfter(items, e.it.Seq) {
+		if oi >= len(outs) || outs[oi].Seq < e.it.Seq || outs[oi].Seq > upper || (len(p.Data) > 0 && !bytes.Equal(outs[oi].MQ.Payload, p.Data)) {
 			vs = append(vs, V{"C01", "not-forwarded|" + cls, fmt.Sprintf("%s (topic %q) was not forwarded to the broker", p, e.name), e.it.Seq})
 			continue
 		}
